@@ -76,8 +76,11 @@ type End struct {
 	// to the caller instead of performing the operation.
 	BeforeSend func(n int, p *types.Packet) error
 	BeforeRecv func(n int) error
-	AfterSend  func(n int, p *types.Packet)
-	AfterRecv  func(n int, p *types.Packet)
+	// InsteadOfRecv, if it returns an error for the n-th packet that arrived, makes
+	// RecvMsg drop that packet and return the error
+	InsteadOfRecv func(n int, p *types.Packet) error
+	AfterSend     func(n int, p *types.Packet)
+	AfterRecv     func(n int, p *types.Packet)
 }
 
 var ErrBroken = errors.New("harness: stream broken")
@@ -268,6 +271,16 @@ func (e *End) RecvMsg(m interface{}) error {
 		case rec = <-e.in.ch:
 		default:
 			return e.in.closeErr
+		}
+	}
+	if e.InsteadOfRecv != nil {
+		// the harness may lose this packet and report an error in its place (a peer
+		// that died right before the packet got through)
+		var tmp types.Packet
+		if tmp.UnmarshalVT(rec.enc) == nil {
+			if err := e.InsteadOfRecv(n, &tmp); err != nil {
+				return err
+			}
 		}
 	}
 	if err := pk.UnmarshalVT(rec.enc); err != nil {
